@@ -9,7 +9,8 @@ for log in sys.argv[1:]:
             rows.append((m.group(1), m.group(2).split()))
 seen = {}
 for k, v in rows:
-    seen[k] = v          # later logs win
+    v = [x for x in v if x != 'none']
+    seen[k] = sorted(set(seen.get(k, [])) | set(v))   # union over all logs given
 def key(k):
     p, r = k.split('-')
     rnd = 1 if r.startswith('m') else int(r[1])
